@@ -23,7 +23,7 @@ THEOREMS = ["C03_stamp_sender", "C03_stamp_clean", "C03_stamp_intact", "C03_forg
 
 
 def load_known():
-    """known-findings.json is the coordinator's; until notes/C03.findings.json is merged there, read it too"""
+    """recorded findings: the committed known-findings.json only"""
     known = {k["id"]: k for k in vlib.load_known("C03")}
     p = ""      # only the committed known-findings.json is consulted at run time
     if os.path.exists(p):
